@@ -412,6 +412,23 @@ def special_forms(ctx, mon, conn, tabs, cases):
         cols = ', '.join(f'%s AS p{i}' for i in range(len(params)))
         stmts.append((f'SELECT {cols} FROM #v', params, 'constants/equal-valued-params'))
         stmts.append((f'SELECT {cols}', params, 'constants/equal-valued-params'))
+    # wide grouped statements: grouping keys of different datatypes anywhere among 9 to 14 targets
+    wrng = ctx.rng('wide-grouping')
+    agg_pool = ['count(*)', 'min(c_int)', 'max(d_int)', 'sum(c_int)', 'count(c_str)', 'first(c_str)', 'last(c_date)', 'min(c_date)', 'max(c_decimal)',
+                'sum(d_decimal)', 'first(c_bool)', 'count(d_date)', 'last(d_str)', 'min(c_str)']
+    key_pool = ['c_str', 'c_int', 'c_date', 'c_bool', 'c_decimal', 'd_str', 'd_int']
+    for w in range(ctx.pick(24, 120)):
+        nk = wrng.choice([2, 2, 3, 4])
+        keys = wrng.sample(key_pool, nk)
+        aggs = wrng.sample(agg_pool, wrng.randint(9 - nk, 14 - nk))
+        targets = [(a, f'a{i}') for i, a in enumerate(aggs)]
+        # at least one key at position 9 or later (1-based), the others anywhere
+        for j, k in enumerate(keys):
+            pos = len(targets) if j == 0 else wrng.randint(0, len(targets))
+            targets.insert(pos, (k, f'g{j}'))
+        by = [wrng.choice([f'g{j}', str([t[1] for t in targets].index(f'g{j}') + 1)]) for j in range(nk)]
+        wrng.shuffle(by)
+        stmts.append((f'SELECT {", ".join(f"{e} AS {n}" for e, n in targets)} FROM #v GROUP BY {", ".join(by)}', None, 'grouping/wide'))
     stmts.append(('SELECT NULL AS r FROM #v', None, 'null'))
     stmts.append(('SELECT %s AS r FROM #v', (None,), 'param/none'))
     stmts.append(('SELECT coalesce(NULL, NULL) AS r FROM #v', None, 'coalesce/null'))
